@@ -136,6 +136,9 @@ func c09Apply(p *gen.Program, ts []c09Transform) (string, []string, string) {
 			lay[t.seq] = gen.GapText{Cont: true}
 		case "comment":
 			lay[t.seq] = gen.GapText{Comment: fmt.Sprintf(" c%d é;|&", k)}
+			if k%4 == 3 {
+				lay[t.seq] = gen.GapText{Comment: gen.EmptyComment}
+			}
 		case "blankline":
 			lay[t.seq] = gen.GapText{Newlines: 2}
 		case "commentline":
@@ -180,6 +183,31 @@ func TestC09(t *testing.T) {
 	st := newStats("C09")
 	defer st.Write()
 	_, nsh := shard()
+
+	// comments inside command substitutions (the generator writes comments only
+	// before a newline of the program itself)
+	if sh, _ := shard(); sh == 0 {
+		q := func(s string) string { return "#" + fmt.Sprintf("%q", s) }
+		for _, c := range []c09Case{
+			{Base: "echo `echo hi`\n", Variant: "echo `echo hi # c`\n", Comments: []string{q(" c")}},
+			{Base: "echo `a` b\n", Variant: "echo `a #c` b\n", Comments: []string{q("c")}},
+			{Base: "echo `a; b`\n", Variant: "echo `a; b #`\n", Comments: []string{q("")}},
+			{Base: "x=`a && b`\n", Variant: "x=`a && # c\nb`\n", Comments: []string{q(" c")}},
+			{Base: "x=`a && b`\n", Variant: "x=`a && b # c`\n", Comments: []string{q(" c")}},
+			{Base: "echo $(a `b` c)\n", Variant: "echo $(a `b #x` c)\n", Comments: []string{q("x")}},
+			{Base: "echo \"`a`\"\n", Variant: "echo \"`a # c`\"\n", Comments: []string{q(" c")}},
+			{Base: "echo $(a\n)\n", Variant: "echo $(a # don`t\n)\n", Comments: []string{q(" don`t")}},
+			{Base: "echo $(a\n) `b`\n", Variant: "echo $(a # )\n) `b # $(`\n", Comments: []string{q(" )"), q(" $(")}},
+			{Base: "a | b\n", Variant: "a | # x`y\nb\n", Comments: []string{q(" x`y")}},
+		} {
+			c.What = "comment inside a command substitution"
+			if err := checkC09(c); err != nil {
+				fail(t, "C09", "layout", c, "%v", err)
+			}
+			st.EvalN(1, 1)
+			st.Class("comment_inside_substitution")
+		}
+	}
 
 	n := 6000
 	if thorough() {
